@@ -110,6 +110,12 @@ func zxC13QueryCluster() {
 			vrtAssert(missing[p] || err != nil, "partition "+zxItoa(p)+" did not deliver all its rows: it is listed as missing or an error is returned")
 		}
 	}
+	// The HTTP layer (web.doQuery, C13.W) and plan operators above a cluster source decide on the
+	// returned error alone — they do not look at MissingPartitions — so for the HTTP clause of the
+	// property a partition lost to a failure must surface as an error here.
+	if nComplete < P {
+		vrtAssert(err != nil, "a partition failed, had no handler or timed out: queryCluster returns an error (callers such as the HTTP layer decide on the error alone)")
+	}
 	vrtAssert(qs.NumPartitions == P, "NumPartitions is the configured number")
 	vrtAssert(qs.NumSuccessfulPartitions <= nComplete, "NumSuccessfulPartitions counts only partitions that delivered everything")
 	if nComplete == P {
